@@ -38,6 +38,7 @@
 #include <unistd.h>
 #include <sys/mman.h>
 #include <sys/stat.h>
+#include <sys/syscall.h>
 #include <sys/types.h>
 
 typedef ssize_t (*read_t)(int, void *, size_t);
@@ -85,6 +86,15 @@ static int fail_errno;
 static int fail_now(const char *call, int fd) {
   if (!fail_call[0] || (fd >= 0 && fd <= 2) || strcmp(call, fail_call)) return 0;
   if (__sync_add_and_fetch(&fail_ctr, 1) != fail_k) return 0;
+  const char *rp = getenv("IO_SHIM_FAIL_REPORT");
+  if (rp) {   /* which thread got the failure: the main thread's tid is the pid */
+    int r = real_open(rp, O_WRONLY | O_CREAT | O_TRUNC | O_CLOEXEC, 0644);
+    if (r >= 0) {
+      const char *w = (long)syscall(SYS_gettid) == (long)getpid() ? "main-thread\n" : "worker-thread\n";
+      real_write(r, w, strlen(w));
+      real_close(r);
+    }
+  }
   errno = fail_errno;
   return 1;
 }
